@@ -32,6 +32,8 @@ def _pc_interp(ctx, rf, md, bd, kd, noinline=()):
             return md == "none"
         if key == op("is", ("s", rfm), NONE):
             return not rf
+        if key in (op("is", ("s", b), NONE), op("is", ("s", k), NONE), op("is", ("s", sol), NONE)):
+            return False            # documented as arrays / a namespace (their .ndim is pinned): a shared helper may test for None
         return None
 
     I = Interp(ctx, EVT, "_pre_calcs", pins=pins, cond=cond, kinds={rfm: "index", nrb: "count", save: "dict"}, noinline=noinline)
@@ -57,6 +59,8 @@ def _au_interp(ctx, kd, cached, allrb=None, rf=None, lup=None, inline_pc=False):
             return allrb
         if rf is not None and nk == op("is", ("s", rfm), NONE):
             return not rf
+        if nk in (op("is", ("s", k), NONE), op("is", ("s", sol), NONE)):
+            return False
         if lup is not None and nk[0] == "op" and nk[1] == "is" and NONE in nk[2:]:
             x = nk[2] if nk[3] == NONE else nk[3]
             if x[0] == "idx" and is_const(x[2]) and isinstance(x[2][1], str) and x[2][1].startswith("lup"):
@@ -712,6 +716,20 @@ def _cache_types(S, P, save):
     return out
 
 
+def _parts(t, out=None):
+    out = set() if out is None else out
+    if isinstance(t, tuple) and t:
+        out.add(t)
+        for x in (t[2] + tuple(v for _, v in t[3]) if t[0] == "call" else t[1:]):
+            if isinstance(x, tuple):
+                _parts(x, out)
+    return out
+
+
+def _has_call(t):
+    return any(x[0] == "call" for x in _parts(t))
+
+
 def r6_exits_and_typing(ctx):
     # ---- every exit of apply_uf returns d = d_static + d_dynamic
     for kd, grp in ((1, "diagonal k"), (2, "full k")):
@@ -732,6 +750,8 @@ def r6_exits_and_typing(ctx):
             sd = [e for e in P.setattrs(P.ret, "d")]
             last = max([e.seq for e in P.stores() if e.target in (ds, dd)] + [0])
             ok = d == op("add", ds, dd) and bool(sd) and sd[-1].seq > last
+            if not ok and d != op("add", ds, dd) and _has_call(d) and ds in _parts(d) and dd in _parts(d):
+                ok = None           # both parts go into a construction that is not understood
             A.req(key, ok, sd[-1].node if sd else fn, show(P.norm(d)))
         A.flush(fn)
     # ---- index spaces
